@@ -1,5 +1,6 @@
 // unit ratio_reduce: rational/src/repr.rs Repr::{zero, reduce, reduce_with_hint, reduce2} and the constructors of
-// rational/src/rbig.rs that establish the invariant (RBig::from_parts, Relaxed::from_parts, Relaxed::canonicalize) (C04)
+// rational/src/rbig.rs that establish the invariant (RBig::from_parts, Relaxed::canonicalize; Relaxed::from_parts is in
+// unit ratio_ops) (C04)
 #![allow(unused_imports, unused_variables, dead_code, non_snake_case, unused_mut, unused_parens, unused_braces)]
 use vstd::prelude::*;
 use vstd::arithmetic::power2::pow2;
@@ -7,6 +8,11 @@ use core::cmp::Ordering;
 verus! {
 //@@ INCLUDE lib/ratio_lemmas.rs
 //@@ INCLUDE lib/bigstub.rs
+impl Sign {
+//@@ FN rational/sign/base_sign_mul.rs
+//@@ FN rational/sign/base_sign_neg.rs
+//@@ FN rational/sign/base_sign_cmp.rs
+}
 //@@ INCLUDE lib/ratio_types.rs
 // rational/src/error.rs: verified in the `total` reading, the panic is unreachable under the precondition
 #[verifier::external_body]
@@ -21,7 +27,6 @@ impl RBig {
 //@@ FN rational/rbig/rbig_from_parts.rs
 }
 impl Relaxed {
-//@@ FN rational/rbig/relaxed_from_parts.rs
 //@@ FN rational/rbig/canonicalize.rs
 }
 } // verus!
